@@ -112,8 +112,9 @@ pub fn withdraw_tx(d: &mut Driver, key: PoolKey, all: bool, spell: u32, exclude:
         let h = d.view().height;
         ins = vec![(CoinID::new(split.hash_nosigs(), 0), CoinDataHeight { coin_data: split.outputs[0].clone(), height: h }), ins[1].clone()];
     }
-    let t = d.build(TxKind::LiqWithdraw, &ins, vec![mk_coin(a, q, liq, &[])], 0, data, 0)?;
-    Some((t, format!("withdraw {} all={} spelling {}", q, all, sname)))
+    // spelling 13: the canonical name, but with a change output (two outputs: not a withdrawal request, nothing is redeemed)
+    let t = d.build(TxKind::LiqWithdraw, &ins, vec![mk_coin(a, q, liq, &[])], if spell == 13 { 1 } else { 0 }, data, 0)?;
+    Some((t, format!("withdraw {} all={} spelling {}{}", q, all, sname, if spell == 13 { " with a change output" } else { "" })))
 }
 
 /// a custom token and a brand-new pool MEL/token
@@ -150,7 +151,7 @@ pub fn pool_step(d: &mut Driver) {
     }
     for _ in 0..nreq {
         let key = target.unwrap_or_else(|| pools.choose(&mut d.r).unwrap().0);
-        let spell = d.r.gen_range(0..13);
+        let spell = d.r.gen_range(0..14);
         let used: Vec<CoinID> = batch.iter().flat_map(|t| t.inputs.clone()).collect();
         let req = match d.r.gen_range(0..10) {
             0..=4 => {
@@ -306,6 +307,21 @@ pub fn swap_history(out: &mut crate::Out, tag: &str, seed: u64, net: NetID, bloc
         }
         d.seal_next(Some(true));
     }
+    // a LiqWithdraw with a change output (two outputs) is not a withdrawal request: its coins stay as they are
+    for k in [PoolKey::new(Denom::Mel, Denom::Sym), PoolKey::new(Denom::Mel, Denom::Erg)] {
+        if let Some((t, w)) = deposit_tx(&mut d, k, 4, 4, 0, &[]) {
+            d.apply(&[t], 0, json!({"why": format!("deposit to hold liquidity tokens: {}", w)}));
+        }
+    }
+    d.seal_next(Some(true));
+    for k in [PoolKey::new(Denom::Mel, Denom::Sym), PoolKey::new(Denom::Mel, Denom::Erg)] {
+        for all in [false, true] {
+            if let Some((t, w)) = withdraw_tx(&mut d, k, all, 13, &[]) {
+                d.apply(&[t], 0, json!({"why": w}));
+            }
+        }
+    }
+    d.seal_next(Some(true));
     // liquidity tokens that no deposit minted (a faucet may create coins of any denomination off mainnet): redeeming more than the
     // pool ever issued.  (Own job: C16 speaks of histories of swaps, deposits and withdrawals, not of faucets of liquidity tokens.)
     if forged && net != NetID::Mainnet {
@@ -400,7 +416,7 @@ pub fn swap_history(out: &mut crate::Out, tag: &str, seed: u64, net: NetID, bloc
             for _ in 0..nreq {
                 let key = if d.r.gen_bool(0.7) { focus.unwrap() } else { pools.choose(&mut d.r).unwrap().0 };
                 let used: Vec<CoinID> = batch.iter().flat_map(|t| t.inputs.clone()).collect();
-                let spell = if d.r.gen_bool(0.75) { 0 } else { d.r.gen_range(0..13) };
+                let spell = if d.r.gen_bool(0.7) { 0 } else { d.r.gen_range(0..14) };
                 let req = match d.r.gen_range(0..12) {
                     0..=6 => {
                         let kind = if d.r.gen_bool(0.9) { TxKind::Swap } else { [TxKind::Normal, TxKind::LiqDeposit, TxKind::LiqWithdraw][d.r.gen_range(0..3)] };
